@@ -199,72 +199,90 @@ func runMatrix(tw *traceWriter, secring, hl, authS, cellsFile string) {
 		fatal("bad cells file:", err)
 	}
 	tw.emit(map[string]any{"ev": "server", "hl": hl, "auth": authKind(authS), "patterns": rm.patterns})
-	for _, p := range rm.patterns {
-		base := p
-		if types[p] == "storage" {
-			base = strings.TrimSuffix(p, "camli/")
-		}
-		for _, c := range cells {
-			sp, ok := subPath[c.Sub]
-			if !ok {
-				fatal("unknown sub-path class", c.Sub)
+	// two passes: the credential-less websocket-upgrade probes come first, on a server process that has not served any
+	// authenticated discovery yet (the process-wide token is created lazily by the first one)
+	for pass := 0; pass < 2; pass++ {
+		for _, p := range rm.patterns {
+			base := p
+			if types[p] == "storage" {
+				base = strings.TrimSuffix(p, "camli/")
 			}
-			if !strings.HasSuffix(p, "/") && c.Sub != "root" {
-				continue // exact pattern: nothing below it
-			}
-			if types[p] == "debug" && c.Sub != "root" && c.Sub != "cmdline" && c.Sub != "debugx" {
-				continue
-			}
-			var body io.Reader
-			ctype := ""
-			if c.Method == "POST" || c.Method == "PUT" {
-				switch c.Sub {
-				case "query":
-					body = strings.NewReader(`{"constraint":{"camliType":"permanode"},"describe":{"depth":1}}`)
-				case "stat":
-					body = strings.NewReader("camliversion=1&blob1=" + ref(4))
-					ctype = "application/x-www-form-urlencoded"
-				case "blob":
-					body = bytes.NewReader(built.Blobs[4])
+			for _, c := range cells {
+				if (pass == 0) != strings.HasPrefix(c.Creds, "ws") {
+					continue
 				}
-			}
-			req := httptest.NewRequest(c.Method, base+sp, body)
-			req.RemoteAddr = "203.0.113.9:5555" // never "localhost"
-			if ctype != "" {
-				req.Header.Set("Content-Type", ctype)
-			}
-			switch c.Creds {
-			case "none":
-			case "bad":
-				req.Header.Set("Authorization", badHdr)
-			case "good":
-				req.Header.Set("Authorization", goodHdr)
-			default:
-				fatal("unknown credentials class", c.Creds)
-			}
-			_, routed := rm.mux.Handler(req)
-			ht := types[routed]
-			if ht == "" {
-				ht = "mux" // the ServeMux's own redirect / not-found handler
-			}
-			rec := httptest.NewRecorder()
-			// a response that echoes a ref of the request itself discloses nothing
-			var hidden []string
-			for _, s := range secrets {
-				if !strings.Contains(base+sp, s) {
-					hidden = append(hidden, s)
+				sp, ok := subPath[c.Sub]
+				if !ok {
+					fatal("unknown sub-path class", c.Sub)
 				}
-			}
-			cls := serve(rm.mux, rec, req, hidden)
-			dsub := c.Sub
-			if ht == "debug" {
-				dsub = strings.Trim(strings.TrimPrefix(routed, "/debug/"), "/")
-				if c.Sub != "root" && strings.HasSuffix(routed, "/") {
-					dsub += "-" + c.Sub
+				if !strings.HasSuffix(p, "/") && c.Sub != "root" {
+					continue // exact pattern: nothing below it
 				}
+				if types[p] == "debug" && c.Sub != "root" && c.Sub != "cmdline" && c.Sub != "debugx" {
+					continue
+				}
+				var body io.Reader
+				ctype := ""
+				if c.Method == "POST" || c.Method == "PUT" {
+					switch c.Sub {
+					case "query":
+						body = strings.NewReader(`{"constraint":{"camliType":"permanode"},"describe":{"depth":1}}`)
+					case "stat":
+						body = strings.NewReader("camliversion=1&blob1=" + ref(4))
+						ctype = "application/x-www-form-urlencoded"
+					case "blob":
+						body = bytes.NewReader(built.Blobs[4])
+					}
+				}
+				req := httptest.NewRequest(c.Method, base+sp, body)
+				req.RemoteAddr = "203.0.113.9:5555" // never "localhost"
+				if ctype != "" {
+					req.Header.Set("Content-Type", ctype)
+				}
+				switch c.Creds {
+				case "none":
+				case "wsnone", "wsempty", "wsbad":
+					// a websocket upgrade request is authenticated by its authtoken form value, not by a header
+					req.Header.Set("Connection", "Upgrade")
+					req.Header.Set("Upgrade", "websocket")
+					q := req.URL.Query()
+					if c.Creds == "wsempty" {
+						q.Set("authtoken", "")
+					} else if c.Creds == "wsbad" {
+						q.Set("authtoken", "0000000000000000")
+					}
+					req.URL.RawQuery = q.Encode()
+				case "bad":
+					req.Header.Set("Authorization", badHdr)
+				case "good":
+					req.Header.Set("Authorization", goodHdr)
+				default:
+					fatal("unknown credentials class", c.Creds)
+				}
+				_, routed := rm.mux.Handler(req)
+				ht := types[routed]
+				if ht == "" {
+					ht = "mux" // the ServeMux's own redirect / not-found handler
+				}
+				rec := httptest.NewRecorder()
+				// a response that echoes a ref of the request itself discloses nothing
+				var hidden []string
+				for _, s := range secrets {
+					if !strings.Contains(base+sp, s) {
+						hidden = append(hidden, s)
+					}
+				}
+				cls := serve(rm.mux, rec, req, hidden)
+				dsub := c.Sub
+				if ht == "debug" {
+					dsub = strings.Trim(strings.TrimPrefix(routed, "/debug/"), "/")
+					if c.Sub != "root" && strings.HasSuffix(routed, "/") {
+						dsub += "-" + c.Sub
+					}
+				}
+				tw.emit(map[string]any{"ev": "req", "pattern": p, "routed": routed, "htype": ht, "sub": dsub, "csub": c.Sub, "method": c.Method,
+					"creds": c.Creds, "status": rec.Code, "cls": cls})
 			}
-			tw.emit(map[string]any{"ev": "req", "pattern": p, "routed": routed, "htype": ht, "sub": dsub, "csub": c.Sub, "method": c.Method,
-				"creds": c.Creds, "status": rec.Code, "cls": cls})
 		}
 	}
 	tw.emit(map[string]any{"ev": "end", "hl": hl})
